@@ -165,7 +165,7 @@ from .hang import RunHang    # noqa: E402  (the run polls without end: with
 # cleaned up, turned into a violation "run_does_not_terminate" by explore)
 
 
-SLEEP_CAP = 20000
+SLEEP_CAP = 3000
 
 
 class _TimeShim:
